@@ -72,7 +72,7 @@ func judgeObligations(m *Model, seqs map[seqKey][]*Attempt, sendResolvedOf func(
 				}
 				gk := rt.GroupKey(ls)
 				for idx := range rc.Integrations {
-					if !m.accepts(rt.Receiver, idx, t1.Add(-rt.GroupInterval), tau, slowSlack) || m.longInFlight(gk, t1) {
+					if !m.accepts(rt.Receiver, idx, t1.Add(-rt.GroupInterval), tau, slowSlack) || m.longInFlight(gk, t1, tau) {
 						continue
 					}
 					st.KnowledgeObligations++
@@ -173,7 +173,7 @@ func judgeObligations(m *Model, seqs map[seqKey][]*Attempt, sendResolvedOf func(
 			if end.After(tr.End) || !m.noDisruption(a.Flush, end) || stateLoss(a.Flush, end) {
 				continue
 			}
-			if !m.accepts(a.Receiver, a.Idx, a.Flush, end, slowSlack) || m.longInFlight(a.GroupKey, a.Done) {
+			if !m.accepts(a.Receiver, a.Idx, a.Flush, end, slowSlack) || m.longInFlight(a.GroupKey, a.Done, end) {
 				continue
 			}
 			unchanged := m.During(a.Flush, end, func(t time.Time) bool {
@@ -235,11 +235,8 @@ func judgeObligations(m *Model, seqs map[seqKey][]*Attempt, sendResolvedOf func(
 					if rtu, _ := m.GroupMembers(m.CfgAt(u), s[0].RouteID, k.GroupKey); rtu.ID != "" {
 						rt = rtu
 					}
-					if m.longInFlight(k.GroupKey, u) {
-						continue
-					}
 					end := u.Add(rt.GroupInterval + deliverySlack)
-					if end.After(tr.End) {
+					if end.After(tr.End) || m.longInFlight(k.GroupKey, u, end) {
 						continue
 					}
 					p := lastOKBefore(k, u)
@@ -260,7 +257,9 @@ func judgeObligations(m *Model, seqs map[seqKey][]*Attempt, sendResolvedOf func(
 					reloadOK, lastReload := true, time.Time{}
 					for _, rl := range m.Reloads {
 						if !rl.Before(p.Flush) && !rl.After(end) {
-							if rl.After(u) || m.Alerts.At(mk, rl) == nil {
+							// (a delivery still in flight across the reload belongs to the old pipeline: the new
+							// dispatcher may have reported the resolution before that delivery returned)
+							if rl.After(u) || m.Alerts.At(mk, rl) == nil || rl.Before(p.Done) {
 								reloadOK = false
 							}
 							lastReload = rl
@@ -610,12 +609,13 @@ func (m *Model) started(t time.Time) bool {
 	return !t.Before(start.Add(time.Duration(m.sc.Opts.StartDelay) * time.Second))
 }
 
-// longInFlight: some delivery attempt of the group is in flight at t and lasts longer than the slow slack (a
-// receiver that ignores cancellation keeps the group's flush, and with it the group's timer loop, busy).
-func (m *Model) longInFlight(groupKey string, t time.Time) bool {
+// longInFlight: some delivery attempt of the group lasts longer than the slow slack and overlaps [t1, t2]: the
+// group's flushes are serialised, so one integration's long delivery (a notifier that ignores cancellation)
+// holds up every later flush of the group, for all of its integrations.
+func (m *Model) longInFlight(groupKey string, t1, t2 time.Time) bool {
 	for i := range m.tr.Attempts {
 		a := &m.tr.Attempts[i]
-		if a.GroupKey == groupKey && !a.T.After(t) && a.Done.After(t) && a.Done.Sub(a.T) > slowSlack {
+		if a.GroupKey == groupKey && !a.T.After(t2) && a.Done.After(t1) && a.Done.Sub(a.T) > slowSlack {
 			return true
 		}
 	}
